@@ -30,11 +30,11 @@ def main(argv=None):
         chk.errors.append("exception in checker: " + traceback.format_exc()[-2000:])
     rc = chk.finish(**getattr(mod, "FINISH", {}))
     if a.rebaseline and rc == 0:
-        fn = os.path.join(ctx.VERIF, "baseline_obligations.json")
-        bl = json.load(open(fn)) if os.path.exists(fn) else {}
-        bl[a.pid] = {r["name"]: r.get("units", 0) for r in chk.rows if r["result"] == "proved"}
+        os.makedirs(os.path.join(ctx.VERIF, "baseline"), exist_ok=True)
+        fn = os.path.join(ctx.VERIF, "baseline", a.pid + ".json")
+        bl = {r["name"]: r.get("units", 0) for r in chk.rows if r["result"] == "proved"}
         json.dump(bl, open(fn, "w"), indent=0, sort_keys=True)
-        print("baseline updated: %d obligations" % len(bl[a.pid]))
+        print("baseline updated: %d obligations" % len(bl))
     return rc
 
 
